@@ -433,6 +433,26 @@ theorem bridge_instantiate_sound_uncond (O : Oracles) (c : ClassDef) (ord : List
     ∃ x0, x = addConstants c.constants x0 ∧ wellFormed O (c.toStruct ord [c.name]) x0 = true :=
   bridge_instantiate_sound O c ord kw x (bridge_wfDecl c ord [c.name] hk hreq hm) h
 
+/-! ### OneOf / AllOf keep the value as it was given (fixed in /repo 89fd84a)
+
+For a short while (/repo 95931f6) OneOf / AllOf stored what the matched / first option built; such a value need not be
+accepted by the field again (AllOf[Float(minimum=0), Integer(maximum=5)] given 2 stored 2.0; OneOf[Boolean, Enum[1, 3]]
+given 'True' stored True), so `copy.deepcopy` and every clone of a valid instance raised.  The construct suite found it
+(`copy-raises:deepcopy:{allOf,oneOf}`); since 89fd84a the given value is kept (as a private copy). -/
+
+/-- the two inputs that exposed the regression: what is stored is the input itself, and it is accepted again; a clone
+    of the instance succeeds -/
+theorem fixed_stored_value_revalidates :
+    let O : Oracles := { reMatch := fun _ _ => true }
+    let fA : FieldDecl := .allOf [.float { min := some ⟨0, 1⟩ }, .integer { max := some ⟨5, 1⟩ }]
+    let fO : FieldDecl := .oneOf [.boolean, .enumLit [.int 1, .int 3]]
+    (match validate O fA (.int 2) with | .ok (.int 2) => true | _ => false) = true
+    ∧ (match validate O fO (.str "True") with | .ok (.str s) => s == "True" | _ => false) = true
+    ∧ (match runChain O (.struct { name := "A", required := [], addl := false, accepts := ["A"] } [("b", fA), ("c", fO)] [])
+          (.inst "A" [("b", .int 2), ("c", .str "True")]) [.deepcopy, .shallowClone [], .castTo] with
+        | .ok (.inst "A" _) => true | _ => false) = true := by
+  decide
+
 /-! ### non-vacuity -/
 
 def exO : Oracles := { reMatch := fun _ _ => true }
